@@ -11,7 +11,7 @@
     signed int64 arithmetic that overflows is a fault.
   * errno: every function reports what it does to errno (`ErrEff`): leaves it, or sets a class.
   * libc (`strtoll`, `strtoull`, `strtod`) is a parameter (`LibcNum`).
-  * Known-defect clauses log a tag naming the C site (`R.tags`).
+  * Known-defect clauses log a tag naming the C site (`R.tags`): two, both in json_object_get_double.
 -/
 import JsonC.Base.Basic
 import JsonC.Generated.Structure
@@ -127,18 +127,10 @@ def parseInt64 (L : LibcNum) (buf : Bytes) : ParseRes :=
 
 /-- int json_parse_uint64(const char *buf, uint64_t *retval) -/
 def parseUint64 (L : LibcNum) (buf : Bytes) : ParseRes :=
-  let b := buf.dropWhile (· == 32)            -- while (*buf == ' ') buf++;
+  let b := buf.dropWhile isSpace              -- while (isspace((unsigned char)*buf)) buf++;
   match b with
-  | 45 :: _ =>                                -- if (*buf == '-') return 1;   (errno is still 0)
-    -- the failure is reported without errno, unless the text is a negative zero
-    let zero := match scanInt b with | some s => s.mag == 0 | none => false
-    ⟨1, none, .none, if zero then [] else ["num.parse_uint64.neg-errno-unset"]⟩
-  | _ =>
-    let r := L.strtoull b
-    -- strtoull skips every isspace character, the loop above only ' ': a '-' behind \t \n \v \f \r
-    -- reaches strtoull, which negates in the unsigned type
-    let wraps := (b.dropWhile isSpace).head? == some 45 && r.val != 0
-    parseTail r (if wraps then ["num.parse_uint64.ws-minus-wraps"] else [])
+  | 45 :: _ => ⟨1, none, .EINVAL, []⟩         -- if (*buf == '-') { errno = EINVAL; return 1; }
+  | _ => parseTail (L.strtoull b) []          -- val = strtoull(buf, &end, 10); …
 
 /-- `if (json_parse_…(s, &c) == 0) return c; /* FALLTHRU */ default: return 0;` -/
 def useParsed (p : ParseRes) (site : String) : Outcome (R Int) :=
